@@ -111,8 +111,17 @@ def c07(tier):
                          "return, PANIC/HANG/ALLOC events are unexplainable",
                     parts=cov)
     if frames:
-        rc_frames = frames(tier)
-        coverage["frame_part"] = "engine.reader.c07_frames (exit %d)" % rc_frames
+        r = frames(tier)
+        if isinstance(r, tuple):
+            fv, fcov = r  # (violation replay paths, coverage)
+            viol = viol + list(fv)
+            coverage["frame_part"] = fcov
+            for k in ("states", "transitions", "traces_validated_against_impl", "evaluations", "distinct_nontrivial"):
+                if isinstance(fcov.get(k), int):
+                    coverage[k] += fcov[k]
+        else:
+            rc_frames = r
+            coverage["frame_part"] = "engine.reader.c07_frames (exit %d)" % rc_frames
     core.write_evidence("C07", tier, "model_checking", coverage, time.time() - t0, len(viol), DIAL_ASSUME)
     for v in viol:
         print("VIOLATION property=C07 replay=%s" % v, flush=True)
@@ -122,4 +131,51 @@ def c07(tier):
 
 
 TABLE = {"C14": c14, "C16": c16, "C18": c18, "C07": c07}
+DNOTE = ("Trusted: TLC, the bounds of the MC configs, the concretiser (URL / header / reply bytes), the in-memory network of the "
+         "harness (boundary-preserving pipe, counting and fault-injecting net.Conn wrapper, protocol-sniffing peer with its own HTTP "
+         "request scanner and SOCKS5 parser, crypto/tls server with a run-time test CA), harness-side SHA-1/base64 for the accept "
+         "digest, error classification of DialContext results. ")
+
+INFO = {
+    "C14": dict(
+        text="Exhaustive TLC model check of the bounded client-handshake model (WSDialMC over MC_C14: reply product status x Upgrade x "
+             "Connection x Accept{right, OWS, stale from the previous dial, other key, the key itself, case-mangled, truncated, empty, "
+             "absent, duplicated} x body x extension header; URLs scheme x userinfo x host form x path/query x fragment; caller header "
+             "maps incl. every protocol-owned header; Dialer settings; histories of 2-3 dials) with ConnOnlyIfProven, "
+             "BadReplyIsErrBadHandshakeWithResponse, KeyFreshPerDial, RefusedBeforeNetwork as invariants and the refinement 'strict "
+             "generator within envelope'; every abstract program is executed on the real Dialer against a scripted server and the "
+             "recorded facts (dial hooks, request as parsed by an independent scanner, result class, response status/body) are "
+             "validated by TLC against WSDial!DialAllowed.",
+        note=DNOTE + "Oracle decisions: a proven 101 announcing permessage-deflate without both parameters fails with another error; "
+             "two Accept header lines (one right) are undecided; protocol-owned caller headers may be refused or ignored; caller "
+             "header maps use canonical keys; URLs are validly percent-encoded.",
+        technique="TLA+ model (WSDial) checked with TLC; TLC-generated programs replayed on the real code; trace validation with TLC"),
+    "C16": dict(
+        text="Exhaustive TLC model check of the dial-path machine (WSDialMC over MC_C16: {direct, http proxy, https proxy, socks5} x "
+             "{ws, wss} x dial hooks x {no timeout, HandshakeTimeout, context deadline, both} x reply / proxy-reply / certificate "
+             "classes x every abstract transport-operation index x fault kind) with FailureClosesObtainedConn, SuccessOpenNoDeadline, "
+             "EveryOpUnderDeadline as invariants; each program is executed on the real Dialer once per CONCRETE transport-operation "
+             "index k of the real execution (Read, Write, SetDeadline, Close on the connection returned by the dial hook, TLS layers "
+             "included) and fault kind {error, timeout = stall until deadline-or-close, EOF}, plus a failing dial hook; every recorded "
+             "run is validated by TLC against WSDial!DialAllowed (ResultSane, FaultFails, DeadlineOK). Server part: "
+             "engine.props_upgrade.c16_server (WSUpgrade).",
+        note=DNOTE + "The deadline clause is decided behaviourally: a stalled operation must end through the armed connection deadline "
+             "(no later than the configured one) or through Close, within 3 s slack; the close_notify write of a failed dial's TLS "
+             "layer is exempt (crypto/tls bounds it by 5 s).",
+        technique="TLA+ model (WSDial, WSUpgrade) checked with TLC; fault enumeration over every transport operation of TLC-generated "
+                  "programs on the real code; trace validation with TLC"),
+    "C18": dict(
+        text="Exhaustive TLC enumeration of the matrix {no proxy, http, https, socks5} x {ws, wss} x {NetDial, NetDialContext, "
+             "NetDialTLSContext set/unset} x proxy credentials {none, user, user:password} x backend certificate {valid, other host, "
+             "untrusted CA} x URL host forms (name, IPv4, IPv6, with/without port) x CONNECT replies {200, 407, 403, 202, 204, 299, 301, "
+             "500, closed}, plus two-dial histories sharing one TLSClientConfig (MC_C18), with ProxyOnlyPath, "
+             "ConnectExactlyOnceWithTarget, AuthIffPassword, Non200Aborts, WssInsideVerifiedTLS, FirstHopUsesApplicableHook as "
+             "invariants; every cell is executed on the real Dialer against in-process HTTP/HTTPS/SOCKS5 proxies and TLS/plain backends "
+             "(in-memory connections from the dial hooks, a loopback listener for cells without an applicable hook) and the layer-by-layer "
+             "log of the remote side is validated by TLC against WSDial!LayersOK / HooksOK.",
+        note=DNOTE + "NetDialTLSContext cells assert that the hook is used and no TLS layer is added on that hop. SNI, if sent, must name "
+             "the URL host. SOCKS5 authentication is not asserted.",
+        technique="TLA+ model (WSDial) checked with TLC; TLC-generated programs replayed on the real code; trace validation with TLC"),
+}
+
 TRACE_SPEC = {"dial": ("WSDialTrace.tla", "WSDialTrace.cfg"), "hsfuzz": ("WSHsFuzzTrace.tla", "WSHsFuzzTrace.cfg")}
